@@ -48,6 +48,7 @@ def validate(rep, pid, sub, gen_args, heap="6g", max_violations=12, stateful=Fal
             env["KNOWN_" + k["id"]] = "1"
     # large stateless traces are validated in chunks (TLC holds the deserialised trace in memory)
     CH = 60000
+    kh = {}
     if n > CH and not stateful:
         bad, st, tr, matched = [], 0, 0, 0
         with open(trace) as f:
@@ -60,6 +61,8 @@ def validate(rep, pid, sub, gen_args, heap="6g", max_violations=12, stateful=Fal
             b, s1, t1, m1 = validate_trace("SolarTrace", "SolarTrace.cfg", part, m, heap=heap, env=env,
                                            max_violations=max_violations, timeout=timeout)
             os.remove(part)
+            for fid, idxs in getattr(validate_trace, "known_hits", {}).items():
+                kh.setdefault(fid, set()).update(c0 + i for i in idxs)
             bad += [c0 + i for i in b]
             st, tr, matched = st + s1, tr + t1, matched + m1
             if len(bad) >= max_violations:
@@ -67,7 +70,8 @@ def validate(rep, pid, sub, gen_args, heap="6g", max_violations=12, stateful=Fal
     else:
         bad, st, tr, matched = validate_trace("SolarTrace", "SolarTrace.cfg", trace, n, heap=heap, env=env,
                                               max_violations=max_violations, resync=resync, timeout=timeout)
-    for fid, idxs in getattr(validate_trace, "known_hits", {}).items():
+        kh = getattr(validate_trace, "known_hits", {})
+    for fid, idxs in kh.items():
         k = [x for x in rep.known.get("known", []) if x.get("id") == fid]
         if k:
             rep.known_hits += len(idxs)
